@@ -203,8 +203,9 @@ def add_pre_citation(citation: FullCaseCitation, words: Tokens) -> None:
         citation.metadata.pin_cite_span_start = citation.span()[0] - (
             end - start
         )
-
-    citation.metadata.pin_cite = clean_pin_cite(m["pin_cite"]) or None
+        # (only then: a pin cite found after the citation must survive an
+        # antecedent that has none, as in "Johnson, 515 U.S. 304, 310")
+        citation.metadata.pin_cite = clean_pin_cite(m["pin_cite"]) or None
     citation.metadata.antecedent_guess = m["antecedent"]
     match_length = m.span()[1] - m.span()[0]
     citation.full_span_start = citation.span()[0] - match_length
